@@ -29,6 +29,63 @@ pub enum Op {
     /// an attribute type of the application's own (0x9A00 + len, value = len bytes), handed to
     /// add_attribute through its own `AttributeWrite` implementation
     Custom(u8),
+    /// Somewhere else in the process (on a thread of its own) an application attribute panics while the
+    /// library serialises it - inside add_fingerprint (0), add_message_integrity (1), build (2),
+    /// write_into (3), into_owned (4) - and the panic is caught.  Nothing of this builder is involved;
+    /// whatever the library keeps process-wide (a scratch buffer behind a lock that is now poisoned)
+    /// must not change what later operations produce.
+    Poison(u8),
+}
+
+/// An application attribute whose serialisation panics (`Op::Poison`).
+#[derive(Debug)]
+pub struct PanicAttr;
+impl Attribute for PanicAttr {
+    fn get_type(&self) -> AttributeType {
+        AttributeType::new(0x9B00)
+    }
+    fn length(&self) -> u16 {
+        4
+    }
+}
+impl AttributeWrite for PanicAttr {
+    fn to_raw(&self) -> RawAttribute {
+        panic!("application attribute: to_raw")
+    }
+    fn write_into_unchecked(&self, _dest: &mut [u8]) {
+        panic!("application attribute: write_into_unchecked")
+    }
+}
+
+/// Runs the panicking serialisation of `Op::Poison(kind)` on a fresh thread and swallows the panic.
+pub fn poison(kind: u8) {
+    let _ = std::thread::Builder::new().stack_size(256 << 10).spawn(move || {
+        let _ = crate::common::guarded(|| {
+            let pa = PanicAttr;
+            let creds: MessageIntegrityCredentials = ShortTermCredentials::new("poison".to_owned()).into();
+            let mut b = real::builder(0, 1, 0x0BAD);
+            let _ = b.add_attribute(&pa);
+            match kind {
+                0 => {
+                    let _ = b.add_fingerprint();
+                }
+                1 => {
+                    let _ = b.add_message_integrity(&creds, IntegrityAlgorithm::Sha1);
+                    let _ = b.add_message_integrity(&creds, IntegrityAlgorithm::Sha256);
+                }
+                2 => {
+                    let _ = b.build();
+                }
+                3 => {
+                    let mut d = vec![0u8; 64];
+                    let _ = b.write_into(&mut d);
+                }
+                _ => {
+                    let _ = b.into_owned().build();
+                }
+            }
+        });
+    }).map(|h| h.join());
 }
 
 /// The application-defined attribute of `Op::Custom`.
@@ -81,6 +138,7 @@ impl Op {
             Op::Measure => "MEASURE".into(),
             Op::CloneFrom(k) => format!("CLONEFROM:{k}"),
             Op::Custom(l) => format!("APP:{l}"),
+            Op::Poison(k) => format!("POISON:{k}"),
         }
     }
     pub fn from_text(s: &str) -> Op {
@@ -96,6 +154,7 @@ impl Op {
             "MEASURE" => Op::Measure,
             "CLONEFROM" => Op::CloneFrom(p[1].parse().unwrap()),
             "APP" => Op::Custom(p[1].parse().unwrap()),
+            "POISON" => Op::Poison(p[1].parse().unwrap()),
             _ => panic!("harness: bad op text {s}"),
         }
     }
@@ -201,6 +260,10 @@ pub fn execute(prog: &Prog, mut observe: impl FnMut(usize, &Result<(), WErr>, &M
         let r: Result<(), WErr> = match op {
             Op::Typed(..) => b.add_attribute(arena[i].as_ref().unwrap().as_write()).map_err(WErr::from),
             Op::Custom(l) => b.add_attribute(&apps[(*l).min(12) as usize]).map_err(WErr::from),
+            Op::Poison(k) => {
+                poison(*k);
+                Ok(())
+            }
             Op::Raw(t, v) => b.add_raw_attribute(RawAttribute::new(AttributeType::new(*t), v)).map_err(WErr::from),
             Op::Sha1(c) => b.add_message_integrity(&creds[*c as usize], IntegrityAlgorithm::Sha1).map_err(WErr::from),
             Op::Sha256(c) => b.add_message_integrity(&creds[*c as usize], IntegrityAlgorithm::Sha256).map_err(WErr::from),
@@ -330,7 +393,7 @@ impl RefBuilder {
                 self.attrs.push((wire::FP, buf[l - 4..].to_vec()));
                 true
             }
-            Op::IntoOwned | Op::Clone | Op::Measure | Op::CloneFrom(_) => true,
+            Op::IntoOwned | Op::Clone | Op::Measure | Op::CloneFrom(_) | Op::Poison(_) => true,
         }
     }
     pub fn bytes(&self) -> Vec<u8> {
